@@ -1,5 +1,5 @@
 # replay of a bounded stand-in violation: re-run native/c01_backends.py
 import sys
-print('Catstate(0.7, 1.1, p=1.75); Rgate; BSgate on bosonic/complex: quadrature moments / photon numbers [-0.1611, -0.0, 0.1565, 0.1763, 0.0737, -0.0685, 0.1664, 0.1181] differ from the fock simulator [-0.2213, -0.1268, 0.0382, -0.1842, -0.1592, -0.043, 0.1664, 0.1181]')
+print("S2gate(0.25, 0.5) | (q[1], q[0]) of 2 after Del | q[0] (indices shifted by one) on fock: ('quad', 0, 0.0) = [0.0553, 0.6923], the documented action gives [0.2455, 0.8304]")
 print('REPLAY-VIOLATION')
 sys.exit(1)
